@@ -1,5 +1,6 @@
 // C20 harness — section `floatmodel`: the IEEE-754 model of relative literals (Model/DateFloat.lean) against the real
-// `time.Duration(strconv.ParseFloat(num, 64) * float64(unit))` of parseRalativeDateTime.
+// parseRalativeDateTime: (1) the expression `time.Duration(strconv.ParseFloat(num, 64) * float64(unit))` evaluated here, exactly;
+// (2) the repository's function itself through parseLqlDateTime, bracketed by two clock reads (window containment).
 //
 // The model covers decimal texts `digits`, `digits.digits`, `digits.`, `.digits` (no sign, no exponent): correctly rounded
 // parse (round-half-even, subnormals, overflow = range error), correctly rounded product with the exactly representable
@@ -154,6 +155,31 @@ func sectionFloatModel(rng *vh.Rng) {
 		}
 		if impl != model {
 			res.Mismatch(vh.Mismatch{Section: "floatmodel", Function: "time.Duration(ParseFloat(num)*float64(unit)) vs relDur (IEEE model)", Input: map[string]interface{}{"num": c.num, "unit_ns": int64(c.u)}, Impl: impl, Model: model})
+		}
+		// the REAL parseRalativeDateTime (through parseLqlDateTime), bracketed by two clock reads: it answers now − d for a `now`
+		// between the reads, so before − answer ≤ d ≤ after − answer must hold for the model's d (containment: a slow machine
+		// only widens the window); a range error of ParseFloat must make the literal an error
+		lit := "-" + c.num + map[time.Duration]string{time.Minute: "m", time.Hour: "h", 24 * time.Hour: "d"}[c.u]
+		bef := time.Now()
+		tm, cn := implLql(lit)
+		aft := time.Now()
+		switch {
+		case model == "err":
+			if cn != "err" {
+				res.Mismatch(vh.Mismatch{Section: "floatmodel", Function: "parseLqlDateTime(relative literal) vs relDur: a ParseFloat range error must reject the literal", Input: rawCase{"lql", lit}, Impl: cn, Model: model})
+			}
+		case cn == "err":
+			res.Mismatch(vh.Mismatch{Section: "floatmodel", Function: "parseLqlDateTime(relative literal) vs relDur", Input: rawCase{"lql", lit}, Impl: cn, Model: model})
+		default:
+			d, _ := new(big.Int).SetString(model, 10)
+			ns := func(t time.Time) *big.Int {
+				return new(big.Int).Add(new(big.Int).Mul(big.NewInt(t.Unix()), big.NewInt(1000000000)), big.NewInt(int64(t.Nanosecond())))
+			}
+			lo, hi := new(big.Int).Sub(ns(bef), ns(tm)), new(big.Int).Sub(ns(aft), ns(tm))
+			if d == nil || d.Cmp(lo) < 0 || d.Cmp(hi) > 0 {
+				res.Mismatch(vh.Mismatch{Section: "floatmodel", Function: "parseLqlDateTime(relative literal): now − answer vs relDur (IEEE model)", Input: rawCase{"lql", lit},
+					Impl: fmt.Sprintf("subtracted between %s and %s ns", lo, hi), Model: model})
+			}
 		}
 	}
 	res.Done(sec)
